@@ -88,11 +88,11 @@ impl<'a> VarGen<'a> {
     }
 }
 
-fn sp_src(sig: &Sig, p: &SP) -> String {
+fn sp_src(sig: &Sig, p: &SP, rng: &mut Prng) -> String {
     match p {
         SP::Discard => "_".into(),
         SP::Var(v) => format!("v{}", v),
-        SP::As(v, q) => format!("{} as v{}", sp_src(sig, q), v),
+        SP::As(v, q) => format!("{} as v{}", sp_src(sig, q, rng), v),
         SP::I(n) => n.to_string(),
         SP::B(b) => format!("#\"{}\"", hex::encode(b)),
         SP::K(t, ci, args) => {
@@ -104,7 +104,7 @@ fn sp_src(sig: &Sig, p: &SP) -> String {
                     loop {
                         match cur {
                             SP::K(_, 0, a) => {
-                                elems.push(sp_src(sig, &a[0]));
+                                elems.push(sp_src(sig, &a[0], rng));
                                 cur = &a[1];
                             }
                             SP::K(_, _, _) => break,
@@ -120,14 +120,52 @@ fn sp_src(sig: &Sig, p: &SP) -> String {
                     }
                     format!("[{}]", elems.join(", "))
                 }
-                Kind::Tuple => format!("({})", args.iter().map(|a| sp_src(sig, a)).collect::<Vec<_>>().join(", ")),
-                Kind::Pair => format!("Pair({})", args.iter().map(|a| sp_src(sig, a)).collect::<Vec<_>>().join(", ")),
+                Kind::Tuple => {
+                    let a: Vec<String> = args.iter().map(|a| sp_src(sig, a, rng)).collect();
+                    format!("({})", a.join(", "))
+                }
+                Kind::Pair => {
+                    let a: Vec<String> = args.iter().map(|a| sp_src(sig, a, rng)).collect();
+                    format!("Pair({})", a.join(", "))
+                }
                 _ => {
                     let c = &d.ctors[*ci];
                     if args.is_empty() {
-                        c.name.clone()
-                    } else {
-                        format!("{}({})", c.name, args.iter().map(|a| sp_src(sig, a)).collect::<Vec<_>>().join(", "))
+                        return c.name.clone();
+                    }
+                    match &c.labels {
+                        // record syntax: labelled fields in a random order, discards possibly
+                        // hidden behind `..`, a variable possibly punned with its label
+                        Some(ls) if rng.chance(2, 3) => {
+                            let mut order: Vec<usize> = (0..args.len()).collect();
+                            if rng.chance(1, 2) {
+                                shuffle(&mut order, rng);
+                            }
+                            let mut items = vec![];
+                            let mut hidden = false;
+                            for &j in &order {
+                                if matches!(args[j], SP::Discard) && rng.chance(1, 2) {
+                                    hidden = true;
+                                    continue;
+                                }
+                                items.push(format!("{}: {}", ls[j], sp_src(sig, &args[j], rng)));
+                            }
+                            if hidden {
+                                items.push("..".into());
+                            }
+                            format!("{} {{ {} }}", c.name, items.join(", "))
+                        }
+                        _ => {
+                            // positional; trailing discards may hide behind `..`
+                            let trailing = args.iter().rev().take_while(|a| matches!(a, SP::Discard)).count();
+                            let hide = if trailing > 0 && rng.chance(1, 3) { 1 + rng.below(trailing) } else { 0 };
+                            let mut items: Vec<String> =
+                                args[..args.len() - hide].iter().map(|a| sp_src(sig, a, rng)).collect();
+                            if hide > 0 {
+                                items.push("..".into());
+                            }
+                            format!("{}({})", c.name, items.join(", "))
+                        }
                     }
                 }
             }
@@ -250,7 +288,8 @@ fn types_src(sig: &Sig) -> String {
 }
 
 /// module text: types, result type, `f`, and (when `values` is given) `probe`
-fn module_src(c: &RtCase, probes: &[(String, String)]) -> String {
+fn module_src(c: &RtCase, probes: &[(String, String)], style_seed: u64) -> String {
+    let mut rng = Prng::new(style_seed);
     let mut src = types_src(&c.sig);
     src.push_str("type ZzRes {\n");
     for (i, p) in c.clauses.iter().enumerate() {
@@ -264,18 +303,35 @@ fn module_src(c: &RtCase, probes: &[(String, String)]) -> String {
         }
     }
     src.push_str("}\n\n");
-    src.push_str(&format!("fn f(x: {}) -> ZzRes {{\n  when x is {{\n", texpr(&c.sig, c.scrut)));
-    for (i, p) in c.clauses.iter().enumerate() {
-        let mut vs = vec![];
-        clause_vars(p, &mut vs);
-        let body = if vs.is_empty() {
-            format!("Zz{}", i)
-        } else {
-            format!("Zz{}({})", i, vs.iter().map(|v| format!("v{}", v)).collect::<Vec<_>>().join(", "))
-        };
-        src.push_str(&format!("    {} -> {}\n", sp_src(&c.sig, p), body));
+    let bodies: Vec<String> = c
+        .clauses
+        .iter()
+        .enumerate()
+        .map(|(i, p)| {
+            let mut vs = vec![];
+            clause_vars(p, &mut vs);
+            if vs.is_empty() {
+                format!("Zz{}", i)
+            } else {
+                format!("Zz{}({})", i, vs.iter().map(|v| format!("v{}", v)).collect::<Vec<_>>().join(", "))
+            }
+        })
+        .collect();
+    if c.clauses.len() == 1 && !matches!(c.clauses[0], SP::Var(_) | SP::Discard) && rng.chance(1, 2) {
+        // a single irrefutable clause: the `let` form goes through the same matching code
+        src.push_str(&format!(
+            "fn f(x: {}) -> ZzRes {{\n  let {} = x\n  {}\n}}\n\n",
+            texpr(&c.sig, c.scrut),
+            sp_src(&c.sig, &c.clauses[0], &mut rng),
+            bodies[0]
+        ));
+    } else {
+        src.push_str(&format!("fn f(x: {}) -> ZzRes {{\n  when x is {{\n", texpr(&c.sig, c.scrut)));
+        for (i, p) in c.clauses.iter().enumerate() {
+            src.push_str(&format!("    {} -> {}\n", sp_src(&c.sig, p, &mut rng), bodies[i]));
+        }
+        src.push_str("  }\n}\n\n");
     }
-    src.push_str("  }\n}\n\n");
     if !probes.is_empty() {
         src.push_str("fn probe() -> List<Bool> {\n  [\n");
         for (v, e) in probes {
@@ -527,7 +583,7 @@ fn run_case(case: &Case, seed: u64, versions: &[PlutusVersion]) -> RtOutcome {
     }
     o.probes = probes.len();
     o.counts.push(format!("clauses-reached:{}/{}", reached.len().min(9), c.clauses.len().min(9)));
-    let src = module_src(&c, &probes);
+    let src = module_src(&c, &probes, seed ^ 0x51);
     o.src = src.clone();
     for ver in versions {
         let vname = format!("{:?}", ver);
